@@ -532,7 +532,7 @@ def run(ctx):
             ("graph3", dict(Mode=q("graph"), N=3, SelfLoops=not quick), None),
             # 4 functions: random walks inside the closed domain (every walk ends in a complete unit) for the
             # replay; the thorough tier also model-checks the whole N = 4 graph below
-            ("graph4", dict(Mode=q("graph"), N=4, SelfLoops=True), 12 if quick else 60)]
+            ("graph4", dict(Mode=q("graph"), N=4, SelfLoops=True), 30 if quick else 200)]
     for tag, consts, sim in plan:
         out = os.path.join(ctx.scratch, "units-%s.ndjson" % tag)
         if sim:
